@@ -1267,6 +1267,51 @@ func ruleFloatFinite(c *Ctx, r *Report) {
 	if n == 0 {
 		r.bad(rule, fname(fn)+"/return", c.Pos(fn.Pos()), desc, "the conversion never returns a value")
 	}
+	// (added with fix F38) the other way in: a Go float passed for a placeholder. Every conversion of a Go
+	// float64 into engine.Float outside the arithmetic (parser, API) is made under IsInf == false and IsNaN == false.
+	if termOf := c.method("Parser", "termOf"); termOf != nil {
+		m := 0
+		eachInstr(termOf, func(in ssa.Instruction) {
+			var cvType types.Type
+			switch x := in.(type) {
+			case *ssa.Convert:
+				cvType = x.Type()
+			case *ssa.ChangeType:
+				cvType = x.Type()
+			default:
+				return
+			}
+			if !isEngNamed(cvType, "Float") {
+				return
+			}
+			m++
+			key := fmt.Sprintf("%s/Float(go-float)#%d", fname(termOf), m)
+			notInf, notNaN := false, false
+			for f := range c.factsAt(in.Block()) {
+				call, ok := f.cond.(*ssa.Call)
+				if !ok || f.pol {
+					continue
+				}
+				if callee := call.Call.StaticCallee(); callee != nil && callee.Pkg != nil && callee.Pkg.Pkg.Path() == "math" {
+					switch callee.Name() {
+					case "IsInf":
+						notInf = true
+					case "IsNaN":
+						notNaN = true
+					}
+				}
+			}
+			d2 := "a Go float becomes a Float only when it is finite and a number"
+			if notInf && notNaN {
+				r.ok(rule, key, c.at(in), d2, "under math.IsInf == false and math.IsNaN == false", true)
+			} else {
+				r.bad(rule, fmt.Sprintf("%s/Float(go-float)", fname(termOf)), c.at(in), d2, "a placeholder argument may be +-Inf or NaN: a NaN does not unify with itself, compares equal to every float and is dropped by sort/2")
+			}
+		})
+		if m == 0 {
+			r.bad(rule, fname(termOf)+"/Float(go-float)", c.Pos(termOf.Pos()), "a Go float becomes a Float only when it is finite and a number", "termOf converts no float")
+		}
+	}
 	r.analysed(rule, fname(fn))
 }
 
